@@ -28,7 +28,7 @@ SUITE_FAILS=$(grep -c "FAILED\|[1-9][0-9]* failed" $DST/suite.log); rm -f $DST/s
 echo "demo_with_change_exit=$WITH demo_without_change_exit=$WITHOUT suite_fail_lines=$SUITE_FAILS" | tee -a $LOG
 # run the checks against /repo with the change applied
 cd /verif
-unset CARGO_TARGET_DIR
+unset CARGO_TARGET_DIR RUSTFLAGS
 git -C /repo apply $DST/patch.diff || { echo "patch does not apply to /repo" | tee -a $LOG; exit 3; }
 RES=""
 for P in $PROPS; do
